@@ -1196,6 +1196,63 @@ impl Eng {
         Ok(())
     }
 
+    /// After another property's oracle has stopped the model: let the device complete whatever it
+    /// can still reach, present every token the caller holds, and drop the queue -- without any
+    /// expectation. What remains judged are the model-free facts of the platform ledger (an
+    /// unshare that matches no live share, a second unshare, wrong dealloc arguments).
+    pub fn blind_epilogue(&mut self) -> R {
+        self.shadow.borrow_mut().enabled = false;
+        let mut seen: Vec<crate::world::Fault> = world::take_faults();
+        let _ = self.fetch();
+        let mut guard_n = 0;
+        while !self.dev_out.is_empty() && guard_n < 70000 {
+            guard_n += 1;
+            if self.complete(0, 0).is_err() {
+                break;
+            }
+        }
+        seen.extend(world::take_faults());
+        let order: Vec<u16> = self.used_fifo.iter().map(|x| x.0).chain(self.subs.keys().copied()).collect();
+        for token in order {
+            let popped = {
+                let Some(sub) = self.subs.get_mut(&token) else { continue };
+                let in_sl = sub.in_slices();
+                let mut out_sl = sub.out_slices();
+                let q = self.q.as_mut().unwrap();
+                matches!(guard(|| unsafe { q.pop_used(token, &in_sl, &mut out_sl) }), Caught::Ok(Ok(_)))
+            };
+            if popped {
+                self.subs.remove(&token);
+            }
+            let f = world::take_faults();
+            let stop = !f.is_empty();
+            seen.extend(f);
+            if stop {
+                break;
+            }
+        }
+        let q = self.q.take();
+        let t = self.t.take();
+        let _ = guard(move || {
+            let mut t = t;
+            if let Some(t) = t.as_mut() {
+                use virtio_drivers::transport::Transport;
+                t.queue_unset(0);
+            }
+            drop(q);
+            drop(t);
+        });
+        seen.extend(world::take_faults());
+        for f in seen {
+            match f.prop {
+                "share" | "unshare" => return Err(v("C04", f.msg)),
+                "dealloc" => return Err(v("C06", f.msg)),
+                _ => {}
+            }
+        }
+        Ok(())
+    }
+
     pub fn points(&self) -> u64 {
         self.shadow.borrow().points
     }
@@ -1220,8 +1277,10 @@ pub struct Outcome {
 /// Run one history with every oracle active. Statistics for `prop` are recorded.
 pub fn run_case(c: &QCase, prop: &'static str, st: &mut Stats) -> Result<(), String> {
     let observe = prop == "C02";
-    let res = (|| -> R<Eng> {
-        let mut e = Eng::new(&c.cfg, observe, prop != "C03")?;
+    let mut eng: Option<Eng> = None;
+    let res = (|| -> R<()> {
+        eng = Some(Eng::new(&c.cfg, observe, prop != "C03")?);
+        let e = eng.as_mut().unwrap();
         for op in &c.ops {
             e.step(op)?;
         }
@@ -1229,12 +1288,27 @@ pub fn run_case(c: &QCase, prop: &'static str, st: &mut Stats) -> Result<(), Str
             e.long_run(l)?;
         }
         e.finish()?;
-        Ok(e)
+        Ok(())
     })();
+    let res: R<Eng> = match res {
+        Ok(()) => Ok(eng.take().unwrap()),
+        Err(vi) => Err(vi),
+    };
     match res {
         Err(vi) => {
             if vi.prop == prop {
                 return Err(format!("[{}] {}", vi.prop, vi.msg));
+            }
+            // Another property's oracle stopped the model. The platform ledger keeps judging
+            // this property's model-free clauses while everything outstanding is wound down.
+            if matches!(prop, "C04" | "C06") {
+                if let Some(e) = eng.as_mut() {
+                    if let Err(v2) = e.blind_epilogue() {
+                        if v2.prop == prop {
+                            return Err(format!("[{}] after the {} oracle stopped the model ({}), winding down: {}", v2.prop, vi.prop, vi.msg, v2.msg));
+                        }
+                    }
+                }
             }
             // A violation that belongs to a different property's oracle: reported by that
             // property's own check, counted here.
